@@ -64,3 +64,30 @@ Print Assumptions C08_process_message_total.
 Print Assumptions C08_client_no_panic.
 Print Assumptions C08_client_poll_terminates.
 Print Assumptions C08_server_no_panic.
+
+(* ---- connection handlers (package E): the client handler never panics on any op list that respects libp2p-swarm's
+   contract (send only when Ready, stream answers only for requests, nothing after poll_close); without the third rule
+   the debug assertion of stream_allocation_failed can fire (…_refuted: latent, the swarm delivers nothing after
+   poll_close); the poll loops terminate (fuel never exhausted). *)
+From BS Require Import Bytes Types FramedWrite Handler Handler_proofs.
+Open Scope N_scope.
+
+Theorem C08_handler_no_panic_if_disciplined :
+  forall (encode : message -> bytes) (c : conn) (ops : list hop),
+  disciplined encode true c ops = true -> ~ In HPanic (handler_outs encode c ops).
+Proof. exact (@Handler_proofs.C08_handler_no_panic_if_disciplined). Qed.
+
+Theorem C08_handler_no_panic_if_disciplined_refuted :
+  exists (c : conn) (ops : list hop),
+    disciplined ex_encode false c ops = true /\ In HPanic (handler_outs ex_encode c ops).
+Proof. exact (@Handler_proofs.C08_handler_no_panic_if_disciplined_refuted). Qed.
+
+Theorem do_poll_not_exhausted :
+  forall (encode : message -> bytes) (st : hstate) (s : list io),
+  h_exhausted st = false ->
+  h_exhausted (fst (do_poll encode st s)) = false /\ h_queue (fst (do_poll encode st s)) = [].
+Proof. exact (@Handler_proofs.do_poll_not_exhausted). Qed.
+
+Print Assumptions C08_handler_no_panic_if_disciplined.
+Print Assumptions C08_handler_no_panic_if_disciplined_refuted.
+Print Assumptions do_poll_not_exhausted.
